@@ -1,7 +1,98 @@
-//@@ unit c17_fetch properties=C17 noverus bounded=artifact_fetch.pages_followed_by_offset_plus_bytes_reassemble_to_the_stored_output
-// This unit carries no Verus obligations of its own: truncate_utf8, which decides where a page ends, is proved in c17_truncate.  The
-// composition in the artifact_fetch tool (seek, read, decode, the offset_bytes / bytes / truncated numbers a client follows) is checked as
-// a BOUNDED stand-in by units/c17_fetch/witness.rs: the real run_artifact_fetch over every stored output of up to 4 characters from
-// {1,2,3,4-byte characters}, page sizes 4..7, pages followed exactly as a client does.  Assumed: File::read on a regular file fills the
-// buffer unless the file ends.  Ids that are not 64 lowercase hex characters are refused.  Never counted as proved.
+//@@ unit c17_fetch properties=C17 bounded=artifact_fetch.pages_followed_by_offset_plus_bytes_reassemble_to_the_stored_output
+// Proved here: the page arithmetic of the two range readers (the artifact_fetch tool and the task-log reader read_artifact_range): the text
+// returned decodes exactly the `bytes` bytes of the blob starting at `offset_bytes` (so a client that continues at offset + bytes neither
+// skips nor repeats a byte), `bytes` never exceeds the page size, no arithmetic can overflow, ids that are not content hashes are refused
+// before any file is touched.  truncate_utf8 is used through the contract proved in c17_truncate.  BOUNDED stand-in (witness.rs): the
+// real artifact_fetch followed page by page over every stored output of <= 4 characters from {1,2,3,4-byte characters}, page sizes 4..7.
+#![allow(unused_imports, dead_code, unused_variables, unused_mut)]
+use vstd::prelude::*;
+
+//@@ include prelude/utf8_model.rs
+
+verus! {
+global size_of usize == 8;
+
+// ---- stubs (R8; trusted) ----------------------------------------------------------------------
+#[verifier::external_body] pub fn vfmt() -> String { unimplemented!() }        // R9
+pub struct PathBuf { pub filler: u8 }
+impl PathBuf { #[verifier::external_body] pub fn join(&self, s: &str) -> (r: PathBuf) ensures r == blob_path(*self, s@) { unimplemented!() } }
+pub uninterp spec fn blob_path(dir: PathBuf, id: Seq<char>) -> PathBuf;
+pub struct TaskEngineConfig { pub filler: u8 }
+impl TaskEngineConfig { pub uninterp spec fn blobs(&self) -> PathBuf; #[verifier::external_body] pub fn artifacts_blobs_dir(&self) -> (r: PathBuf) ensures r == self.blobs() { unimplemented!() } }
+// only content hashes name blobs
+pub uninterp spec fn is_hash(id: Seq<char>) -> bool;
+#[verifier::external_body] pub fn is_lower_hex_64(id: &str) -> (r: bool) ensures r == is_hash(id@) { unimplemented!() }
+
+// the blob behind a path, and a file positioned in it.  Opening is allowed only for a hash-named blob.
+pub mod io { use vstd::prelude::*; verus! { pub struct Error { pub filler: u8 } } }
+pub uninterp spec fn blob_of(p: PathBuf) -> Seq<u8>;
+pub struct Metadata { pub filler: u8 }
+impl Metadata { pub uninterp spec fn of(&self) -> PathBuf; #[verifier::external_body] pub fn len(&self) -> (n: u64) ensures n == blob_of(self.of()).len() { unimplemented!() } }
+pub mod fsx { use super::*; verus! {
+    #[verifier::external_body] pub fn metadata(p: &PathBuf) -> (r: Result<Metadata, io::Error>) ensures r matches Ok(m) ==> m.of() == *p { unimplemented!() }
+} }
+pub enum SeekFrom { Start(u64) }
+pub struct File { pub filler: u8 }
+impl File {
+    pub uninterp spec fn path(&self) -> PathBuf;
+    pub uninterp spec fn pos(&self) -> int;
+    #[verifier::external_body] pub fn open(p: &PathBuf) -> (r: Result<File, io::Error>) ensures r matches Ok(f) ==> f.path() == *p && f.pos() == 0 { unimplemented!() }
+    // lseek refuses offsets beyond i64::MAX
+    #[verifier::external_body] pub fn seek(&mut self, s: SeekFrom) -> (r: Result<u64, io::Error>)
+        ensures final(self).path() == old(self).path(), r is Ok ==> (s matches SeekFrom::Start(o) && o <= i64::MAX && final(self).pos() == o), r is Err ==> final(self).pos() == old(self).pos(),
+    { unimplemented!() }
+    // a read hands out the bytes at the position (none beyond the end of the blob), at most buf.len() of them
+    #[verifier::external_body] pub fn read(&mut self, buf: &mut Vec<u8>) -> (r: Result<usize, io::Error>)
+        ensures final(self).path() == old(self).path(), final(buf)@.len() == old(buf)@.len(),
+            r matches Ok(n) ==> n <= old(buf)@.len() && (n > 0 ==> old(self).pos() + n <= blob_of(old(self).path()).len())
+                && (n > 0 ==> final(buf)@.subrange(0, n as int) == blob_of(old(self).path()).subrange(old(self).pos(), old(self).pos() + n)),
+    { unimplemented!() }
+}
+#[verifier::external_body] pub fn zeroed(n: usize) -> (v: Vec<u8>) ensures v@.len() == n { unimplemented!() }
+// contract of truncate_utf8 as proved in unit c17_truncate (both copies)
+#[verifier::external_body]
+pub fn truncate_utf8(bytes: &Vec<u8>, max_bytes: usize) -> (ret: (String, bool, usize))
+    ensures ret.2 <= bytes@.len() && ret.2 <= max_bytes, ret.0@ == lossy(bytes@.subrange(0, ret.2 as int)), !ret.1 ==> ret.2 == bytes@.len(),
+{ unimplemented!() }
+
+//@@ fn crates/ripd/src/tasks/logs.rs read_artifact_range rules=R9
+//@@ alias std::fs::metadata fsx::metadata
+//@@ alias std::fs::File::open File::open
+//@@ alias std::io::SeekFrom::Start SeekFrom::Start
+//@@ rewrite vec![0u8; max_bytes] => zeroed(max_bytes)
+//@@ rewrite use std::io::Seek; => ;
+//@@ rewrite use std::io::Read; => ;
+//@@ sig
+    ensures
+        ret is Ok ==> is_hash(id@),                                                                                     // [read_artifact_range.only_content_hashes_are_opened]
+        ret matches Ok(t) ==> ({
+            let blob = blob_of(blob_path(config.blobs(), id@));
+            &&& t.2 == blob.len()                                                                                       // [read_artifact_range.total_is_the_blob_length]
+            &&& t.1 <= max_bytes && (t.1 > 0 ==> offset_bytes + t.1 <= blob.len())                           // [read_artifact_range.range_within_page_and_blob]
+            // the page text decodes exactly the `used` bytes of the blob that start at `offset_bytes`: continuing at offset + used neither skips nor repeats a byte
+            &&& t.1 > 0 ==> t.0@ == lossy(blob.subrange(offset_bytes as int, offset_bytes + t.1))                       // [read_artifact_range.page_text_decodes_exactly_the_reported_range]
+            // `truncated` is false only when the page reaches the end of the blob
+            &&& !t.3 ==> offset_bytes + t.1 >= blob.len()                                                               // [read_artifact_range.untruncated_means_the_end_was_reached]
+        }),
+//@@ tail
+    proof {
+        let blob = blob_of(blob_path(config.blobs(), id@));
+        if used_bytes > 0 {
+            assert(read_bytes > 0);
+            assert(buf@.len() == read_bytes);
+            assert(buf@ =~= blob.subrange(offset_bytes as int, offset_bytes + read_bytes));
+            assert(buf@.subrange(0, used_bytes as int) =~= blob.subrange(offset_bytes as int, offset_bytes + used_bytes));
+        }
+    }
+//@@ closure 0
+    ensures true
+//@@ closure 1
+    ensures true
+//@@ closure 2
+    ensures true
+//@@ closure 3
+    ensures true
+//@@ end
+
+} // verus!
 fn main() {}
